@@ -13,7 +13,21 @@ Local Open Scope Z_scope.
 
 (** the facts the theorems are proved for (= the regenerated facts, by C10_facts_pinned), for either
     shape [pk] of get_producers / get_consumers *)
-Definition expected_facts (pk : prod_kind) : res_facts := mkResFacts NRFixed true true true pk true true true.
+Definition expected_facts (pk : prod_kind) : res_facts := mkResFacts NRFixed true true true pk true true true VKRestores.
+
+(** the same bodies before /repo 4167248: a view left the shared model at the last segment's parameters.
+    Only the regression theorem [C10_reads_keep_user_parameters_old_code_refuted] is about this value. *)
+Definition old_view_facts (pk : prod_kind) : res_facts := mkResFacts NRFixed true true true pk true true true VKLeavesLast.
+
+(** what the USER did to the shared model's parameters: [model.update_parameter(k, v)] (a KeyError changes nothing) *)
+Definition user_edit (o : op) (cur : env) : env :=
+  match o with
+  | OUserUpd k v => match lookup k cur with Some _ => set_assoc k v cur | None => cur end
+  | _ => cur
+  end.
+Fixpoint user_edits (os : list op) (cur : env) : env :=
+  match os with [] => cur | o :: rest => user_edits rest (user_edit o cur) end.
+Definition pars_dict (cur : env) : out := VDict (map (fun kv => (fst kv, inject_Z (snd kv))) cur).
 
 Section Spec.
   Variable pk : prod_kind.
@@ -199,3 +213,17 @@ Section Spec.
   Definition good_state (pn : list name) (tbs : list (frame Z)) (st : state) : Prop :=
     map fst (s_cur st) = pn /\ (s_raw st = [] \/ s_raw st = tbs).
 End Spec.
+
+(** a regression shape that is NOT in the tree (seeded change C10-5): after [pd.concat] the frame is filtered with
+    [combined.loc[~combined.index.duplicated(keep="last")]] -- of the rows that report the same time only the last
+    survives.  [C10_concat_unique_times_refuted] shows what it loses. *)
+Fixpoint keep_last (idx : list Z) (rows : list (list Q)) : list (Z * list Q) :=
+  match idx, rows with
+  | t :: idx', r :: rows' => if existsb (Z.eqb t) idx' then keep_last idx' rows' else (t, r) :: keep_last idx' rows'
+  | _, _ => []
+  end.
+Definition concat0_unique_times (data : list (frame Q)) : res (frame Q) :=
+  match concat0 data with
+  | Ok f => let l := keep_last (f_idx f) (f_rows f) in Ok (mkFrame (map fst l) (f_cols f) (map snd l))
+  | Err e => Err e
+  end.
